@@ -34,8 +34,9 @@ theorem C05_gen_methodUnmodified : Generated.methodUnmodified = some true := by 
     of `JRV.Model.JsonText` (hypothesis `hstrict` of `C05_malformed_text`). -/
 theorem C05_gen_stdlibLoadsPlain : Generated.stdlibLoadsPlain = some true := by decide
 
-/-- `loads` does not parse the empty body (`JsonText.verdict [] = .noData`). -/
-theorem C05_gen_loadsEmptyIsNone : Generated.loadsEmptyIsNone = some true := by decide
+/-- `_marshaled_dispatch`: `if not data: raise …` is the first statement of the parse `try` (whose handler
+    builds the −32700 Fault), before `loads` is called: the model's `marshaledDispatchBody s true _`. -/
+theorem C05_gen_emptyBodyRejectedInParseTry : Generated.emptyBodyRejectedInParseTry = some true := by decide
 
 /-- `loads` hands the body to the parser as it is: the verdict is that of the whole text. -/
 theorem C05_gen_loadsParsesWholeBody : Generated.loadsParsesWholeBody = some true := by decide
